@@ -98,7 +98,34 @@ fn cross_check(rep: &c10_validate::Report, spec: &DocSpec, out: &mut Vec<Failure
 }
 
 /// one document through all oracles
+/// position the `startxref` line of a written file names
+fn startxref_of(bytes: &[u8]) -> Option<usize> {
+    let at = bytes.windows(9).rposition(|w| w == b"startxref")?;
+    std::str::from_utf8(&bytes[at + 9..]).ok()?.split_whitespace().next()?.parse().ok()
+}
+/// apply the size steering of a specification: pad the Keywords entry until the cross-reference section starts where asked
+fn steered(spec: &DocSpec) -> DocSpec {
+    let mut sp = spec.clone();
+    let Some((boundary, delta)) = spec.steer else { return sp };
+    let target = (boundary as i64 + delta as i64) as usize;
+    let mut info = sp.info.clone().unwrap_or_default();
+    info.strings[3] = Some(Vec::new());
+    sp.info = Some(info);
+    for _ in 0..4 {
+        let Ok(Ok((bytes, _))) = build(&sp) else { break };
+        let Some(at) = startxref_of(&bytes) else { break };
+        if at == target { break; }
+        let cur = sp.info.as_ref().unwrap().strings[3].as_ref().unwrap().len() as i64;
+        let want = cur + target as i64 - at as i64;
+        if want < 0 { break; }
+        sp.info.as_mut().unwrap().strings[3] = Some(vec![b'k'; want as usize]);
+    }
+    sp
+}
+
 pub fn evaluate(spec: &DocSpec) -> Outcome {
+    let steered_spec;
+    let spec = if spec.steer.is_some() { steered_spec = steered(spec); &steered_spec } else { spec };
     let mut o = Outcome::default();
     let (bytes, made) = match build(spec) {
         Err(p) => { o.fails.push(Failure { oracle: "build", class: p.signature(), detail: format!("building panicked: {}", p.describe()) }); return o; }
